@@ -17,7 +17,7 @@ class Discard(Exception):
 
 class Model:
     """Primary state of one molecule as the documented meaning of the edits predicts it."""
-    __slots__ = ('atoms', 'bonds', 'name', 'meta', 'astereo', 'bstereo')
+    __slots__ = ('atoms', 'bonds', 'name', 'meta', 'astereo', 'bstereo', 'xy')
 
     def __init__(self):
         self.atoms = {}    # n -> (Z, isotope, charge, radical)
@@ -26,6 +26,7 @@ class Model:
         self.meta = {}
         self.astereo = {}  # n -> bool            (raw labels as last verified)
         self.bstereo = {}  # (min, max) -> bool
+        self.xy = {}       # n -> (x, y)   2D coordinates are part of the primary state
 
     def copy(self):
         c = Model()
@@ -35,12 +36,14 @@ class Model:
         c.meta = dict(self.meta)
         c.astereo = dict(self.astereo)
         c.bstereo = dict(self.bstereo)
+        c.xy = dict(self.xy)
         return c
 
     # ---- documented semantics of the edits
-    def add_atom(self, n, spec):
+    def add_atom(self, n, spec, xy=(0., 0.)):
         self.atoms[n] = spec
         self.bonds[n] = {}
+        self.xy[n] = xy
 
     def add_bond(self, n, m, order):
         self.bonds[n][m] = order
@@ -52,6 +55,7 @@ class Model:
             del self.bonds[m][n]
             self.bstereo.pop((min(n, m), max(n, m)), None)
         self.astereo.pop(n, None)
+        self.xy.pop(n, None)
 
     def delete_bond(self, n, m):
         del self.bonds[n][m]
@@ -63,6 +67,7 @@ class Model:
         self.atoms = {g(n, n): a for n, a in self.atoms.items()}
         self.bonds = {g(n, n): {g(m, m): o for m, o in ms.items()} for n, ms in self.bonds.items()}
         self.astereo = {g(n, n): s for n, s in self.astereo.items()}
+        self.xy = {g(n, n): v for n, v in self.xy.items()}
         self.bstereo = {(min(g(n, n), g(m, m)), max(g(n, n), g(m, m))): s for (n, m), s in self.bstereo.items()}
 
     def induced(self, atoms):
@@ -71,6 +76,7 @@ class Model:
         c.atoms = {n: a for n, a in self.atoms.items() if n in atoms}
         c.bonds = {n: {m: o for m, o in ms.items() if m in atoms} for n, ms in self.bonds.items() if n in atoms}
         c.astereo = {n: s for n, s in self.astereo.items() if n in atoms}
+        c.xy = {n: v for n, v in self.xy.items() if n in atoms}
         c.bstereo = {k: s for k, s in self.bstereo.items() if k[0] in atoms and k[1] in atoms}
         return c
 
@@ -80,6 +86,7 @@ class Model:
             self.bonds[n] = dict(ms)
         self.astereo.update(other.astereo)
         self.bstereo.update(other.bstereo)
+        self.xy.update(other.xy)
 
     def near(self, sources, dist):
         seen = set(x for x in sources if x in self.bonds)
@@ -113,8 +120,13 @@ def stereo_of(mol):
     return ast, bst
 
 
+def xy_of(mol):
+    return {n: (a.x, a.y) for n, a in mol._atoms.items()}
+
+
 def resync(model, mol):
     model.atoms, model.bonds = primary_of(mol)
+    model.xy = xy_of(mol)
     model.astereo, model.bstereo = stereo_of(mol)
     model.name = mol.name
     model.meta = dict(mol.meta) if mol._meta else {}
@@ -139,6 +151,10 @@ def check_primary(mol, model):
         diff = {n: (bonds.get(n), model.bonds.get(n)) for n in set(bonds) | set(model.bonds)
                 if bonds.get(n) != model.bonds.get(n)}
         raise Violation('primary-mismatch', f'bonds (mol, model): {diff}')
+    xy = xy_of(mol)
+    if xy != model.xy:
+        diff = {n: (xy.get(n), model.xy.get(n)) for n in set(xy) | set(model.xy) if xy.get(n) != model.xy.get(n)}
+        raise Violation('primary-mismatch:xy', f'coordinates (mol, model): {diff}')
 
 
 def rebuild(mol, model, astereo, bstereo):
@@ -152,7 +168,8 @@ def rebuild(mol, model, astereo, bstereo):
     ra, rb = r._atoms, r._bonds
     for n in mol._atoms:
         z, iso, ch, rad = model.atoms[n]
-        ra[n] = Element.from_atomic_number(z)(iso, charge=ch, is_radical=rad)
+        x, y = model.xy.get(n, (0., 0.))
+        ra[n] = Element.from_atomic_number(z)(iso, charge=ch, is_radical=rad, x=x, y=y)
         rb[n] = {}
     for n, ms in mol._bonds.items():
         rbn = rb[n]
@@ -304,6 +321,7 @@ OBSERVERS = [
     ('bond_labels', _bond_labels),
     ('hash', lambda m: hash(m)),
     ('len', lambda m: (len(m), m.atoms_count, list(m), bool(m))),
+    ('xy', lambda m: [(n, a.x, a.y, tuple(a.xy)) for n, a in m.atoms()]),
     ('environment', lambda m: [(n, tuple(m.environment(n, include_bond=False, include_atom=False))) for n in m]),
 ]
 OBS_INDEX = {k: i for i, (k, _) in enumerate(OBSERVERS)}
